@@ -1,6 +1,9 @@
 import FteikVerif.Model.Scalar
 import FteikVerif.Model.Py
 import FteikVerif.Model.Fteik2D
+import FteikVerif.Model.Fteik3D
+import FteikVerif.Model.Interp
+import FteikVerif.Model.Ray
 /-!
 # Line-protocol driver (Tie A)
 
@@ -56,6 +59,87 @@ def cmdFteik2d : StateT Toks (Except String) String := do
   | .error e => pure s!"err {e.code}"
   | .ok o => pure s!"ok {fbits o.vzero} {outGrid2 o.tt} {outGrid2P o.grad}"
 
+
+def popGrid3 (nz nx ny : Nat) : StateT Toks (Except String) (Grid3 Float) := do
+  let mut g : Grid3 Float := Array.mkEmpty nz
+  for _ in [0:nz] do
+    g := g.push (← popGrid2 nx ny)
+  pure g
+
+def outFs (a : List Float) : String := " ".intercalate (a.map fbits)
+
+def cmdFteik3d : StateT Toks (Except String) String := do
+  let nzc ← popNat; let nxc ← popNat; let nyc ← popNat; let nsweep ← popNat; let grad ← popNat
+  let dz ← popF; let dx ← popF; let dy ← popF; let zs ← popF; let xs ← popF; let ys ← popF
+  let slow ← popGrid3 nzc nxc nyc
+  match fteik3d big slow nzc nxc nyc dz dx dy zs xs ys nsweep (grad != 0) with
+  | .error e => pure s!"err {e.code}"
+  | .ok o =>
+    let tt := o.tt.toList.flatMap fun p => p.toList.flatMap fun r => r.toList
+    let g := o.grad.toList.flatMap fun p => p.toList.flatMap fun r => r.toList.flatMap fun t => [t.1, t.2.1, t.2.2]
+    pure s!"ok {fbits o.vzero} {outFs tt} {outFs g}"
+
+def cmdInterp2d : StateT Toks (Except String) String := do
+  let nx ← popNat; let ny ← popNat
+  let x ← popFs nx; let y ← popFs ny; let v ← popGrid2 nx ny
+  let xq ← popF; let yq ← popF; let fv ← popF
+  pure s!"ok {fbits (interp2d x y v xq yq fv)}"
+
+def cmdInterp3d : StateT Toks (Except String) String := do
+  let nx ← popNat; let ny ← popNat; let nz ← popNat
+  let x ← popFs nx; let y ← popFs ny; let z ← popFs nz; let v ← popGrid3 nx ny nz
+  let xq ← popF; let yq ← popF; let zq ← popF; let fv ← popF
+  pure s!"ok {fbits (interp3d x y z v xq yq zq fv)}"
+
+def cmdVinterp2d : StateT Toks (Except String) String := do
+  let nx ← popNat; let ny ← popNat
+  let x ← popFs nx; let y ← popFs ny; let v ← popGrid2 nx ny
+  let xq ← popF; let yq ← popF; let xs ← popF; let ys ← popF; let vz ← popF; let fv ← popF
+  pure s!"ok {fbits (vinterp2d x y v xq yq xs ys vz fv)}"
+
+def cmdVinterp3d : StateT Toks (Except String) String := do
+  let nx ← popNat; let ny ← popNat; let nz ← popNat
+  let x ← popFs nx; let y ← popFs ny; let z ← popFs nz; let v ← popGrid3 nx ny nz
+  let xq ← popF; let yq ← popF; let zq ← popF
+  let xs ← popF; let ys ← popF; let zs ← popF; let vz ← popF; let fv ← popF
+  pure s!"ok {fbits (vinterp3d x y z v xq yq zq xs ys zs vz fv)}"
+
+def nan : Float := 0.0 / 0.0
+
+def outRay (r : RayRes Float) : String :=
+  match r with
+  | .err e => s!"err {e.code}"
+  | .ok v => s!"ok {v.size} " ++ outFs (v.toList.flatMap fun p => p.toList)
+
+def cmdRay2d : StateT Toks (Except String) String := do
+  let nz ← popNat; let nx ← popNat; let maxStep ← popNat; let honor ← popNat; let fuel ← popNat
+  let z ← popFs nz; let x ← popFs nx
+  let zg ← popGrid2 nz nx; let xg ← popGrid2 nz nx
+  let zend ← popF; let xend ← popF; let zsrc ← popF; let xsrc ← popF; let stp ← popF
+  let ga : Array Float → Array Float := fun p =>
+    #[interp2d z x zg (get1 p 0) (get1 p 1) nan, interp2d z x xg (get1 p 0) (get1 p 1) nan]
+  let c : RayCfg Float := ⟨#[z, x], #[zsrc, xsrc], stp, maxStep, honor != 0, ga⟩
+  pure (outRay (rayTrace c #[zend, xend] fuel))
+
+def cmdRay3d : StateT Toks (Except String) String := do
+  let nz ← popNat; let nx ← popNat; let ny ← popNat
+  let maxStep ← popNat; let honor ← popNat; let fuel ← popNat
+  let z ← popFs nz; let x ← popFs nx; let y ← popFs ny
+  let zg ← popGrid3 nz nx ny; let xg ← popGrid3 nz nx ny; let yg ← popGrid3 nz nx ny
+  let zend ← popF; let xend ← popF; let yend ← popF
+  let zsrc ← popF; let xsrc ← popF; let ysrc ← popF; let stp ← popF
+  let ga : Array Float → Array Float := fun p =>
+    #[interp3d z x y zg (get1 p 0) (get1 p 1) (get1 p 2) nan,
+      interp3d z x y xg (get1 p 0) (get1 p 1) (get1 p 2) nan,
+      interp3d z x y yg (get1 p 0) (get1 p 1) (get1 p 2) nan]
+  let c : RayCfg Float := ⟨#[z, x, y], #[zsrc, xsrc, ysrc], stp, maxStep, honor != 0, ga⟩
+  pure (outRay (rayTrace c #[zend, xend, yend] fuel))
+
+def cmdShrink : StateT Toks (Except String) String := do
+  let n ← popNat
+  let p ← popFs n; let d ← popFs n; let lo ← popFs n; let up ← popFs n
+  pure s!"ok {fbits (shrink p d lo up)}"
+
 def handle (line : String) : String :=
   let toks := (line.splitOn " ").filter (· ≠ "")
   match toks with
@@ -67,6 +151,14 @@ def handle (line : String) : String :=
       | .error e => s!"bad {e}"
     match c with
     | "fteik2d" => run cmdFteik2d
+    | "fteik3d" => run cmdFteik3d
+    | "interp2d" => run cmdInterp2d
+    | "interp3d" => run cmdInterp3d
+    | "vinterp2d" => run cmdVinterp2d
+    | "vinterp3d" => run cmdVinterp3d
+    | "ray2d" => run cmdRay2d
+    | "ray3d" => run cmdRay3d
+    | "shrink" => run cmdShrink
     | _ => s!"bad command {c}"
 
 partial def loop (h : IO.FS.Stream) (out : IO.FS.Stream) : IO Unit := do
